@@ -279,7 +279,53 @@ func (w *World) Global(pkg, name string) *ssa.Global {
 			return g
 		}
 	}
+	// renamed: the pinned tree's variable is gone and exactly one package-level variable the pinned
+	// tree did not have carries the same type
+	if sp != nil {
+		rel := relOfPkg(pkg)
+		want, known := "", map[string]bool{}
+		for _, e := range baselineGlobals[rel] {
+			if i := strings.IndexByte(e, ' '); i > 0 {
+				known[e[:i]] = true
+				if e[:i] == name {
+					want = e[i+1:]
+				}
+			}
+		}
+		if want != "" {
+			var cands []*ssa.Global
+			for nm, mem := range sp.Members {
+				if g, ok := mem.(*ssa.Global); ok && !known[nm] && !strings.Contains(nm, "$") {
+					if types.TypeString(g.Type().(*types.Pointer).Elem(), relQualifier(sp.Pkg)) == want {
+						cands = append(cands, g)
+					}
+				}
+			}
+			if len(cands) == 1 {
+				return cands[0]
+			}
+		}
+	}
 	panic(anchorErr{"var " + pkg + "." + name})
+}
+
+func relOfPkg(pkg string) string {
+	switch {
+	case pkg == "" || pkg == "rux":
+		return "."
+	case pkg == "server":
+		return "server"
+	}
+	return "pkg/" + pkg
+}
+
+func relQualifier(self *types.Package) types.Qualifier {
+	return func(q *types.Package) string {
+		if q == self || q.Path() == self.Path() {
+			return ""
+		}
+		return q.Name()
+	}
 }
 
 // ConstVal resolves a package-level constant.
@@ -288,6 +334,32 @@ func (w *World) Const(pkg, name string) *ssa.NamedConst {
 	if sp != nil {
 		if c, ok := sp.Members[name].(*ssa.NamedConst); ok {
 			return c
+		}
+	}
+	// renamed: same type and value under a name the pinned tree did not have
+	if sp != nil {
+		rel := relOfPkg(pkg)
+		want, known := "", map[string]bool{}
+		for _, e := range baselineConsts[rel] {
+			if i := strings.IndexByte(e, ' '); i > 0 {
+				known[e[:i]] = true
+				if e[:i] == name {
+					want = e[i+1:]
+				}
+			}
+		}
+		if want != "" {
+			var cands []*ssa.NamedConst
+			for nm, mem := range sp.Members {
+				if c, ok := mem.(*ssa.NamedConst); ok && !known[nm] && c.Value != nil && c.Value.Value != nil {
+					if types.TypeString(c.Type(), relQualifier(sp.Pkg))+" = "+c.Value.Value.ExactString() == want {
+						cands = append(cands, c)
+					}
+				}
+			}
+			if len(cands) == 1 {
+				return cands[0]
+			}
 		}
 	}
 	panic(anchorErr{"const " + pkg + "." + name})
@@ -327,6 +399,46 @@ func (w *World) Field(pkg, typ, field string) *types.Var {
 		for i := 0; i < st.NumFields(); i++ {
 			if st.Field(i).Name() == field {
 				return st.Field(i)
+			}
+		}
+	}
+	// renamed field: the pinned tree's field is gone and exactly one field that the pinned tree did not
+	// have carries the same type
+	if ok {
+		rel := "."
+		switch {
+		case pkg == "" || pkg == "rux":
+		case pkg == "server":
+			rel = "server"
+		default:
+			rel = "pkg/" + pkg
+		}
+		base := baselineFields[rel+":"+typ]
+		want := ""
+		known := map[string]bool{}
+		for _, ft := range base {
+			if i := strings.IndexByte(ft, ' '); i > 0 {
+				known[ft[:i]] = true
+				if ft[:i] == field {
+					want = ft[i+1:]
+				}
+			}
+		}
+		if want != "" {
+			var cands []*types.Var
+			for i := 0; i < st.NumFields(); i++ {
+				f := st.Field(i)
+				if !known[f.Name()] && types.TypeString(f.Type(), func(p *types.Package) string {
+					if p.Path() == n.Obj().Pkg().Path() {
+						return ""
+					}
+					return p.Name()
+				}) == want {
+					cands = append(cands, f)
+				}
+			}
+			if len(cands) == 1 {
+				return cands[0]
 			}
 		}
 	}
